@@ -193,6 +193,59 @@ def run(rep, repo, tier):
                   observed="range() = %s" % [str(v) for v in vals],
                   loc=pe_r.repo.module(quant.QMOD).loc(
                       mod.classes[cls].find_method("range")[1]))
+  # R6 reporters of a live object: quantized_linear documents alpha as a
+  # modifiable attribute; after it was reassigned and the quantizer called,
+  # min() / max() / range() describe the codes the object now emits
+  nlive = 0
+  if "quantized_linear" in mod.classes:
+    unit = "%s::quantized_linear.min/max" % mod.relpath
+    for bits, integer, kn, sym in ((4, 1, True, 0), (3, 0, True, 1),
+                                   (4, 2, False, 0), (2, 0, True, 0)):
+      for a0, a1 in ((None, F(2)), (F(2), None), (F(1), F(1, 4)),
+                     ("auto", F(2)), (F(2), F(1))):
+        kw = dict(bits=bits, integer=integer, keep_negative=kn,
+                  symmetric=sym, alpha=a0)
+        cfg = "quantized_linear(%s) then q.alpha = %s, called" % (
+            oracle.show_kwargs(kw), oracle.show_kwargs({"a": a1})[2:])
+        try:
+          pe, obj = quant.construct(repo, "quantized_linear", kw)
+          if a0 == "auto":
+            pe.call(obj, [pe.x_input()], {})   # leaves a data-dependent scale
+          pe.setattr(obj, "alpha", a1)
+          out = pe.call(obj, [pe.x_input()], {})
+          got = value_set(Fwd("infer")(out.term))
+          mn = quant.call_method((pe, obj), "min")
+          mx = quant.call_method((pe, obj), "max")
+          rv = pe.call(pe.getattr(obj, "range"), [], {})
+        except (PyRaise, ConfigRejected):
+          continue
+
+        def const(v):
+          if isinstance(v, Tensor):
+            return Fwd()(v.term).const_value()
+          return F(v)
+        mn, mx = const(mn), const(mx)
+        lo, hi = got.bounds()
+        nlive += 1
+        rep.check(mn is not None and mx is not None and lo is not None and
+                  hi is not None and mn <= lo and hi <= mx, "R6", unit,
+                  "live-object:does-not-enclose",
+                  "%s: outputs lie in [%s, %s] but min()=%s max()=%s" % (
+                      cfg, lo, hi, mn, mx), instance=cfg,
+                  observed="min()=%s max()=%s outputs [%s, %s]" % (
+                      mn, mx, lo, hi))
+        if got.kind == "fin" and isinstance(rv, list) and all(
+            not isinstance(e, Tensor) for e in rv):
+          vals = sorted({F(e) for e in rv})
+          rep.check(vals == sorted(got.vals), "R6",
+                    "%s::quantized_linear.range" % mod.relpath,
+                    "live-object:range!=reachable-set",
+                    "%s: range() lists %s..., the quantizer emits %s..." % (
+                        cfg, [str(v) for v in vals[:6]],
+                        [str(v) for v in sorted(got.vals)[:6]]),
+                    instance=cfg, observed="range() = %s" % [
+                        str(v) for v in vals])
+  rep.extra["live_object_reporter_points"] = nlive
   rep.extra["configuration_points"] = npoints
   rep.extra["configurations_rejected_by_constructor_or_asserts"] = rejected
   # R3
@@ -224,3 +277,4 @@ def run(rep, repo, tier):
   rep.require_instances("R2", 100)
   rep.require_instances("R3", 3)
   rep.require_instances("R4", 60)
+  rep.require_instances("R6", 20)
